@@ -193,6 +193,10 @@ func (run *Run) directed(s int) {
 				}
 				run.opLoad(gi, "up")
 				// keep the force-tainted nodes empty: the scheduler will not use them
+				if k >= 2 && r.Intn(3) == 0 && run.nextFaults == nil {
+					// the cloud refuses one of the later terminations of the batch
+					run.nextFaults = &sim.FaultPlan{Ordinal: map[string]map[int]sim.FaultKind{sim.AwsTermASG: {2 + r.Intn(k-1): pick(r, sim.FServerErr, sim.FThrottle)}}}
+				}
 			}
 		}
 	case "from-zero":
